@@ -13,8 +13,16 @@
 (*   fetch      the counter source reported (in, out) octets for a session  *)
 (*   crash      the incarnation ended at a crash point; boot: a new manager *)
 (*              was started on the persisted directory                      *)
-(*   quiesce    all retries drained, peer up; carries the sessions for      *)
-(*              which the persistence directory holds a pending Stop        *)
+(*   quiesce    all retries drained; carries `durable`, the sessions for    *)
+(*              which the persistence directory holds a pending Stop, and   *)
+(*              `down`, the sessions for whose Stop RADIUS is still         *)
+(*              unreachable (the next Stop of that session would be refused)*)
+(*   hang       an API call (call, sid) of the current incarnation has not  *)
+(*              returned within the harness' watchdog bound although all    *)
+(*              retries are drained: the incarnation is blocked, nothing    *)
+(*              more will happen in this run unless the process is killed;  *)
+(*              carries `durable` and `down` like quiesce.  Last event of   *)
+(*              a run.                                                      *)
 (*                                                                         *)
 (* clause                      sentence of the property statement           *)
 (* --------------------------  ------------------------------------------- *)
@@ -27,7 +35,22 @@
 (*                             has an accepted Stop or a durable one; only  *)
 (*                             for unreachability "within the configured    *)
 (*                             retry budget" (no record refused more often  *)
-(*                             than the budget)                             *)
+(*                             than the budget).  "durably queued WHILE THE *)
+(*                             SERVER STAYS DOWN": a Stop that is merely on *)
+(*                             disk excuses a session only if RADIUS is     *)
+(*                             still unreachable for that Stop; once the    *)
+(*                             server is back and an incarnation has run to *)
+(*                             quiescence, the Stop must have been accepted.*)
+(*                             "eventually" also ends when an API call      *)
+(*                             blocks for ever (hang): absent a crash no    *)
+(*                             later point exists at which the Stop could   *)
+(*                             be accepted; then the session whose          *)
+(*                             StopSession is the blocked call (or every    *)
+(*                             live session if the blocked call is the      *)
+(*                             graceful Stop()) counts as over as well.     *)
+(*                             That a call returns is NOT required as such  *)
+(*                             (the statement is silent about it): a hang   *)
+(*                             with no Stop outstanding violates nothing.   *)
 (* StopAfterStart              "never before its Start"                     *)
 (* NoPhantomStop               "never for a session that was not started"   *)
 (* NoDupStopWithinIncarnation  "absent a crash a Stop the server has        *)
@@ -94,6 +117,16 @@ CountersOK(cfg, g, e) == e.sid \in Sess(cfg) =>
 
 IsStop(e) == e.op \in {"recv", "drop"} /\ e.typ = "stop"
 
+\* the end of an observation: quiescence, or an API call that blocks for ever
+IsEnd(e) == e.op \in {"quiesce", "hang"}
+\* sessions whose Stop is due at the end e: the ones that are over, and at a hang the ones whose
+\* stop was requested by the call that never returns
+Due(g, e) == g.owed \cup (IF e.op = "hang" /\ e.call = "stop" THEN {e.sid} \cap g.live ELSE {})
+                    \cup (IF e.op = "hang" /\ e.call = "graceful" THEN g.live ELSE {})
+\* "durably queued while the server stays down"
+Excused(e) == RangeOf(e.durable) \cap RangeOf(e.down)
+Unaccounted(g, e) == {s \in Due(g, e) : s \notin g.stopAcc /\ s \notin Excused(e)}
+
 \* clauses violated by observed event e in ghost state g
 EdgeClauses(cfg, g, e) ==
        (IF e.op = "recv" /\ e.typ = "stop" /\ e.sid \notin g.startAcc THEN {"StopAfterStart"} ELSE {})
@@ -101,8 +134,7 @@ EdgeClauses(cfg, g, e) ==
   \cup (IF IsStop(e) /\ e.sid \in g.stopAck THEN {"NoDupStopWithinIncarnation"} ELSE {})
   \cup (IF e.op = "recv" /\ (~IdentOK(cfg, e) \/ ~SameIdent(cfg, g, e)) THEN {"IdentifiersOwn"} ELSE {})
   \cup (IF e.op = "recv" /\ e.typ \in {"stop", "interim"} /\ ~CountersOK(cfg, g, e) THEN {"CountersExact"} ELSE {})
-  \cup (IF e.op = "quiesce" /\ ~g.over /\ (\E s \in g.owed : s \notin g.stopAcc /\ s \notin RangeOf(e.durable))
-        THEN {"EventuallyStopped"} ELSE {})
+  \cup (IF IsEnd(e) /\ ~g.over /\ Unaccounted(g, e) # {} THEN {"EventuallyStopped"} ELSE {})
 
 EndIncarnation(g) == [g EXCEPT !.owed = @ \cup g.live, !.live = {}, !.stopAck = {}]
 
@@ -126,6 +158,6 @@ NodeClauses(cfg, g, n, lastop) == {}
 
 \* description of a violating step for the report (which sessions are unaccounted at quiescence, and
 \* for which sessions a Stop had been refused before): used to tell listed findings apart, not to judge
-Detail(cfg, g, e) == [unaccounted |-> IF e.op = "quiesce" THEN {s \in g.owed : s \notin g.stopAcc /\ s \notin RangeOf(e.durable)} ELSE {},
+Detail(cfg, g, e) == [unaccounted |-> IF IsEnd(e) THEN Unaccounted(g, e) ELSE {},
                       stopRefused |-> {s \in Sess(cfg) : g.refused[<<"stop", s>>] > 0}]
 =============================================================================
